@@ -128,6 +128,8 @@ func (r *rulerW) RunRules(ctx context.Context, credentials *checker.Credentials,
 		}
 	case "unknown":
 		res = make([]rules.Result, len(data))
+	case "empty":
+		res = []rules.Result{}
 	default:
 		res = r.in.RunRules(ctx, credentials, action, data)
 	}
